@@ -31,8 +31,51 @@
 // per run.  --from k --count c --state s runs only the phases >= k after restoring the recorded pair.
 // The ORACLE (pairwise comparison of traces) is in checks/c17.py and is written from the property text only.
 #include <deque>
+#include <new>
 
 #include "vrt_all.hpp"
+
+// The client programs must themselves be deterministic functions of the schedule.  Lock-free pushes that CAS on
+// POINTERS (Strand::Submit, coroutine Mutex) succeed or retry depending on whether malloc handed out a freed node's
+// address again (benign ABA), so the number of injection points would depend on the history of the heap -- which a
+// restored run (fresh process, only the remainder executed) does not share.  By default nothing is ever freed here,
+// so addresses are never reused; --heap-reuse restores the normal allocator (to show the effect).
+static bool gHeapNoReuse = true;
+void* operator new(std::size_t n) {
+  void* p = std::malloc(n != 0 ? n : 1);
+  if (p == nullptr) {
+    throw std::bad_alloc{};
+  }
+  return p;
+}
+void* operator new(std::size_t n, std::align_val_t al) {
+  std::size_t a = static_cast<std::size_t>(al);
+  void* p = std::aligned_alloc(a, (n + a - 1) / a * a);
+  if (p == nullptr) {
+    throw std::bad_alloc{};
+  }
+  return p;
+}
+void operator delete(void* p) noexcept {
+  if (!gHeapNoReuse) {
+    std::free(p);
+  }
+}
+void operator delete(void* p, std::size_t) noexcept {
+  if (!gHeapNoReuse) {
+    std::free(p);
+  }
+}
+void operator delete(void* p, std::align_val_t) noexcept {
+  if (!gHeapNoReuse) {
+    std::free(p);
+  }
+}
+void operator delete(void* p, std::size_t, std::align_val_t) noexcept {
+  if (!gHeapNoReuse) {
+    std::free(p);
+  }
+}
 
 namespace {
 
@@ -685,6 +728,8 @@ int main(int argc, char** argv) {
       cfg.count = num();
     } else if (a == "--state") {
       cfg.state = static_cast<std::uint32_t>(num());
+    } else if (a == "--heap-reuse") {
+      gHeapNoReuse = false;
     } else if (a == "--dump-draws") {
       dump_draws = num();
     } else {
